@@ -130,6 +130,8 @@ pub struct Counters {
     pub writes_classified: u64,
     pub op_outcomes: BTreeMap<(String, &'static str), u64>,
     pub total_dev_writes: u64,
+    pub fsinfo_dev_writes: u64,
+    pub fsinfo_exception_armed: u64,
     pub readonly_exceptions: u64,
     pub faults_fired: u64,
     pub faults_exempt: u64,
@@ -615,6 +617,7 @@ pub fn run_session(cfg: &SessCfg, img0: &Image, vol_bytes: u64, cfg_class: u64, 
         run_epoch(&mut s, &mut empty, true);
     }
     s.counters.total_dev_writes = s.dev.0.borrow().n_writes;
+    s.counters.fsinfo_dev_writes = s.dev.0.borrow().n_writes_watch;
     Outcome {
         ops_run: s.pc,
         history: std::mem::take(&mut s.history),
@@ -693,6 +696,10 @@ fn run_epoch(s: &mut Sess, src: &mut dyn OpSource, closing: bool) {
         None => false,
     };
     s.count_known = s.fsinfo_trusted;
+    if g.fat_bits == 32 {
+        let fo = g.fsinfo_sector * g.bps;
+        s.dev.0.borrow_mut().watch = Some((fo, fo + g.bps));
+    }
     s.mount_img = Some(mount_img);
     for h in s.model.handles.iter_mut() {
         *h = None;
@@ -755,10 +762,12 @@ fn run_epoch(s: &mut Sess, src: &mut dyn OpSource, closing: bool) {
             // destructor writes is discarded - the storage keeps the bytes it had at the moment of abandonment
             let snap = dev2.snapshot();
             let counted = dev2.0.borrow().n_writes;
+            let counted_w = dev2.0.borrow().n_writes_watch;
             dev2.set_logging(false, false);
             drop(fs);
             dev2.with_img_mut(|im| *im = snap);
             dev2.0.borrow_mut().n_writes = counted;
+            dev2.0.borrow_mut().n_writes_watch = counted_w;
             dev2.set_logging(true, journal_on);
             Ok(())
         }
